@@ -950,6 +950,12 @@ func (c *Ctx) bootValue(fn *ssa.Function, v ssa.Value, construct string) {
 			}
 		}
 	}
+	if !ok && !isC {
+		// the digits are produced from something other than one Uint16 call (bytes printed one
+		// by one, shifts, a table of digits): which bytes in which order is not evaluated here
+		c.R.Infof("H2.value", name(fn), construct+".value", c.Pos(fn.Pos()), "not decided for this shape: the number that is printed is not the direct result of a ByteOrder.Uint16 call")
+		return
+	}
 	c.R.Check(ok, "H2.value", name(fn), construct+".value", c.Pos(fn.Pos()), "the boot number is the little-endian uint16 of each consecutive byte pair", det)
 }
 
